@@ -1,0 +1,139 @@
+//! Verification-only access to crate-private functions (`--cfg noodles_verif`).
+//!
+//! This module exists only when the crate is built with `--cfg noodles_verif`. It exposes
+//! crate-private codec and integer coding functions to an external monitoring harness through
+//! thin wrappers. It adds no behavior.
+
+#![allow(missing_docs)]
+
+pub mod codecs {
+    pub mod rans_4x8 {
+        use std::io;
+
+        pub use crate::codecs::rans_4x8::Order;
+
+        pub fn encode(order: Order, src: &[u8]) -> io::Result<Vec<u8>> {
+            crate::codecs::rans_4x8::encode(order, src)
+        }
+
+        pub fn decode(src: &[u8]) -> io::Result<Vec<u8>> {
+            crate::codecs::rans_4x8::decode(src)
+        }
+    }
+
+    pub mod rans_nx16 {
+        use std::io;
+
+        pub use crate::codecs::rans_nx16::Flags;
+
+        pub fn encode(flags: Flags, src: &[u8]) -> io::Result<Vec<u8>> {
+            crate::codecs::rans_nx16::encode(flags, src)
+        }
+
+        pub fn decode(src: &[u8], uncompressed_size: usize) -> io::Result<Vec<u8>> {
+            crate::codecs::rans_nx16::decode(src, uncompressed_size)
+        }
+    }
+
+    pub mod aac {
+        use std::io;
+
+        pub use crate::codecs::aac::Flags;
+
+        pub fn encode(flags: Flags, src: &[u8]) -> io::Result<Vec<u8>> {
+            crate::codecs::aac::encode(flags, src)
+        }
+
+        pub fn decode(src: &[u8], uncompressed_size: usize) -> io::Result<Vec<u8>> {
+            crate::codecs::aac::decode(src, uncompressed_size)
+        }
+    }
+
+    pub mod fqzcomp {
+        use std::io;
+
+        pub fn encode(lens: &[usize], src: &[u8]) -> io::Result<Vec<u8>> {
+            crate::codecs::fqzcomp::encode(lens, src)
+        }
+
+        pub fn decode(src: &[u8]) -> io::Result<Vec<u8>> {
+            crate::codecs::fqzcomp::decode(src)
+        }
+    }
+
+    pub mod name_tokenizer {
+        use std::io;
+
+        pub fn encode(src: &[u8]) -> io::Result<Vec<u8>> {
+            crate::codecs::name_tokenizer::encode(src)
+        }
+
+        pub fn decode(src: &[u8]) -> io::Result<Vec<u8>> {
+            crate::codecs::name_tokenizer::decode(src)
+        }
+    }
+
+    pub mod gzip {
+        use std::io;
+
+        pub fn encode(compression_level: u32, src: &[u8]) -> io::Result<Vec<u8>> {
+            crate::codecs::gzip::encode(flate2::Compression::new(compression_level), src)
+        }
+
+        pub fn decode(src: &[u8], dst: &mut [u8]) -> io::Result<()> {
+            crate::codecs::gzip::decode(src, dst)
+        }
+    }
+
+    pub mod bzip2 {
+        use std::io;
+
+        pub fn encode(compression_level: u32, src: &[u8]) -> io::Result<Vec<u8>> {
+            crate::codecs::bzip2::encode(::bzip2::Compression::new(compression_level), src)
+        }
+
+        pub fn decode(src: &[u8], dst: &mut [u8]) -> io::Result<()> {
+            crate::codecs::bzip2::decode(src, dst)
+        }
+    }
+
+    pub mod lzma {
+        use std::io;
+
+        pub fn encode(compression_level: u32, src: &[u8]) -> io::Result<Vec<u8>> {
+            crate::codecs::lzma::encode(compression_level, src)
+        }
+
+        pub fn decode(src: &[u8], dst: &mut [u8]) -> io::Result<()> {
+            crate::codecs::lzma::decode(src, dst)
+        }
+    }
+}
+
+pub mod num {
+    use std::io::{self, Read, Write};
+
+    pub fn read_itf8<R: Read>(reader: &mut R) -> io::Result<i32> {
+        crate::io::reader::num::read_itf8(reader)
+    }
+
+    pub fn read_ltf8<R: Read>(reader: &mut R) -> io::Result<i64> {
+        crate::io::reader::num::read_ltf8(reader)
+    }
+
+    pub fn read_uint7<R: Read>(reader: &mut R) -> io::Result<u32> {
+        crate::io::reader::num::read_uint7(reader)
+    }
+
+    pub fn write_itf8<W: Write>(writer: &mut W, n: i32) -> io::Result<()> {
+        crate::io::writer::num::write_itf8(writer, n)
+    }
+
+    pub fn write_ltf8<W: Write>(writer: &mut W, n: i64) -> io::Result<()> {
+        crate::io::writer::num::write_ltf8(writer, n)
+    }
+
+    pub fn write_uint7<W: Write>(writer: &mut W, n: u32) -> io::Result<()> {
+        crate::io::writer::num::write_uint7(writer, n)
+    }
+}
